@@ -64,7 +64,10 @@ CHECKS = {
  "C07": ("exploration", "differential history monitor: invocation histories (RunCode / Call / REPL-style Run; value, error, panic, overflow, cancelled; cancel events of earlier contexts made deterministic with the VerifHalt hook) on one VM compared with the same invocation on a fresh VM; absolute invariants (running=false, fp=0, sp restored); race detector on a sample",
          "All histories of length <= 3 over the alphabet (exhaustive) and sampled histories up to length 6 give, for every invocation, the result and error it gives on a fresh VM, never (nil, nil) or a partial value.",
          "Run and RunCode are not mixed on one VM (undefined by the statement). Hook: vm.VerifHalt/VerifSP/VerifFP/VerifRunning.", "DESIGN.md §5 C07"),
- "C10": ("exploration", "history checker over recorded send/receive histories: conservation (exactly-once), per-sender order, close semantics, wait() results, spawn-argument capture; porcupine linearizability check of stamped histories against a bounded FIFO queue; race detector over every scenario",
+ "C09": ("exploration", "Go race detector (GORACE log parsed, reports deduplicated by innermost risor frame pair) over concurrent evaluations in one process, plus a differential monitor: every result line is compared with the same program run alone afterwards in the same process",
+         "N in {2,4,8,16} goroutines released from barriers, each with its own configuration, globals and Go values, drive first-use paths of every process-wide cache (Go type registry and converters on fresh generic instantiations, reflect.StructOf types, codecs, small-int caches, ~130 module functions, shared importers, one shared compiler.Code, Clone+Call in three orderings) at GOMAXPROCS 2 and 16. Held on the interleavings that occurred: no race report with a risor frame, no fatal, no result differing from the sequential reference.",
+         "The race detector is happens-before based: it reports unsynchronised access pairs the workload executes, whether or not they overlapped in wall-clock time. Watchdog timeouts and workers killed without a Go fatal are inconclusive.", "DESIGN.md §5 C09"),
+"C10": ("exploration", "history checker over recorded send/receive histories: conservation (exactly-once), per-sender order, close semantics, wait() results, spawn-argument capture; porcupine linearizability check of stamped histories against a bounded FIFO queue; race detector over every scenario",
          "Producer/consumer topologies (1..4 senders and receivers, buffer 0..8, all send/receive/iteration styles, three spawn forms, GOMAXPROCS 1..16, injected yields) are run in plain and -race workers; unique message ids make the histories unambiguous; stamped histories of buffered channels are checked with porcupine. Held on the schedules that occurred.",
          "Goroutines share only channels by construction, so race reports concern interpreter state. porcupine timeouts are inconclusive.", "DESIGN.md §5 C10"),
 }
